@@ -24,7 +24,8 @@ func init() {
 			"R6 the acquisition after a challenge passes ParseScope(challenge's scope parameter) as the Union receiver and the union of the desired and required scopes as its argument; " +
 			"R7 lockset for ociauth.registry and stdTransport.registries, with the sync.Once initialisation exemption verified rather than assumed. " +
 			"R1b the expiry purge examines every cached token (slices.DeleteFunc, or a loop whose exit does not depend on a token's expiry). " +
-			"R1c the purge instant (time.Now) is read with the registry lock held; R6b the first token request of an acquisition always asks for required ∪ desired scope.",
+			"R1c the purge instant (time.Now) is read with the registry lock held; R6b the first token request of an acquisition always asks for required ∪ desired scope. " +
+			"R2b (shared with C09.R8) the containment test the cache lookup relies on is a subset test.",
 		NotDecided: "real-time expiry (that a token is unexpired when sent) and what the token server actually grants are not decided.",
 		Technique:  "static analysis: SSA dominance, phi-edge pairing of token and scope, reachability on the CFG, lockset dataflow",
 	})
@@ -176,6 +177,8 @@ func runC10(c *core.Ctx) {
 	_ = inlinePurgeOK
 	purgeTimeTakenUnderLock(c, "C10.R1")
 	firstTokenRequestAsksForUnion(c, "C10.R6")
+	// the containment test the cache lookup relies on
+	actionSubsetTest(c, "C10.R2")
 	if purge != nil {
 		purgeExaminesEveryToken(c, "C10.R1", []*ssa.Function{purge})
 	}
